@@ -9,7 +9,10 @@
    Contents
      (1) fwd_diff_bound, fwd_diff_bound_exact_step
      (2) eps1, eps2, code_step, fwd_diff_code_step
-     (3) k2_jac_step_bound (+ _num), k2_jac_accuracy_refuted
+     (3) k2_jac_step_bound (+ _num), k2_jac_accuracy_refuted (HISTORICAL: the
+         K = 2 routine before commit 41b038a, step eps2)
+     (3') k2_jac_accuracy_current (the K = 2 routine as it is now: its J is the
+         K = 1 Jacobian, step eps1), k2_jac_old_witness_current
      (4) second_diff_bound, second_diff_code_step, mixed_partial_swap
      (5) restore_exact_real, restore_float_bound, restore_k1_within_1e15,
          restore_float_bound_n
@@ -277,7 +280,10 @@ Proof.
   - apply Rabs_le. lra.
 Qed.
 
-(** * (3) The first-derivative output of the K = 2 routine (step eps2) *)
+(** * (3) HISTORICAL: the first-derivative output of the K = 2 routine before
+    commit 41b038a (step eps2; finding C08-k2-jac-step, fixed).  These lemmas
+    are about the [fix_k2jac = false] instance of the parametrised model and say
+    nothing about the current code; (3') below does. *)
 
 Lemma code_step_pos : forall e x, 0 < e -> 0 < code_step e x.
 Proof.
@@ -367,8 +373,9 @@ Proof.
   - intros t _. rewrite par_D2, Rabs_R1. apply Rle_refl.
 Qed.
 
-(* The "1e-4 relative to max(1,|J|)" accuracy clause is FALSE for the J
-   output of the K = 2 routine, already in exact arithmetic, inside the
+(* HISTORICAL.  The "1e-4 relative to max(1,|J|)" accuracy clause was FALSE for
+   the J output of the K = 2 routine when it was formed with the second-order
+   step eps2 (before 41b038a), already in exact arithmetic, inside the
    stated function class (|f| <= 1, |f'| <= 1, |f''| <= 1 at magnitude 10):
    error = h / 2 = 10 * 2^-13 / 2 = 6.1e-4 > 1e-4. *)
 Theorem k2_jac_accuracy_refuted :
@@ -399,6 +406,57 @@ Proof.
     replace (((10 + eps2 * 10 - 10) ^ 2 / 2 - (10 - 10) ^ 2 / 2) / (eps2 * 10) - 0)
       with (eps2 * 5) by (field; lra).
     rewrite Rabs_right; lra.
+Qed.
+
+(** * (3') The first-derivative output of the K = 2 routine as it is now
+
+    diff_impl.hpp:79  J = dr_numerical<1>(f, x_nc).second  (commit 41b038a):
+    the entry is the forward quotient with the first-order step
+    code_step eps1 x (model: k2_characterisation_current, k2_jac_is_k1_jac),
+    so the 1e-4 clause holds on the property's class already in the form of
+    [fwd_diff_code_step]; here the exact-arithmetic special case, stated in the
+    shape of [k2_jac_accuracy_refuted] so that the two can be compared. *)
+
+Theorem k2_jac_accuracy_current :
+  forall (f : R -> R) (x M2 : R),
+    let h := code_step eps1 x in
+    (x = 0 \/ 1 / 10 <= Rabs x <= 10) ->
+    (forall t, x <= t <= x + h -> forall k, (k <= 2)%nat -> ex_derive_n f k t) ->
+    (forall t, x <= t <= x + h -> Rabs (Derive_n f 2 t) <= M2) ->
+    M2 <= 100 ->
+    Rabs ((f (x + h) - f x) / h - Derive f x)
+      <= 1 / 10000 * Rmax 1 (Rabs (Derive f x)).
+Proof.
+  intros f x M2 h Hx Hd HM2 HM2c.
+  assert (Hh : 0 < h) by (apply code_step_pos, eps1_pos).
+  assert (Hp53 : 0 < / 2 ^ 53) by (apply Rinv_0_lt_compat; lra).
+  assert (Hp46 : 0 < / 2 ^ 46) by (apply Rinv_0_lt_compat; lra).
+  apply (fwd_diff_code_step f x h M2 0 (f x) (f (x + h))).
+  - exact Hx.
+  - exact Hh.
+  - fold h. replace (h - h) with 0 by ring. rewrite Rabs_R0.
+    pose proof (Rabs_pos x). apply Rmult_le_pos; lra.
+  - exact Hd.
+  - exact HM2.
+  - exact HM2c.
+  - apply Rle_refl.
+  - lra.
+  - replace (f (x + h) - f (x + h)) with 0 by ring. rewrite Rabs_R0. apply Rle_refl.
+  - replace (f x - f x) with 0 by ring. rewrite Rabs_R0. apply Rle_refl.
+Qed.
+
+(* Satisfiability, on the very witness of [k2_jac_accuracy_refuted]:
+   (t - 10)^2 / 2 at 10 now has error h / 2 = 10 * 2^-26 / 2 = 7.5e-8. *)
+Example k2_jac_old_witness_current :
+  let h := code_step eps1 10 in
+  Rabs ((par (10 + h) - par 10) / h - Derive par 10)
+    <= 1 / 10000 * Rmax 1 (Rabs (Derive par 10)).
+Proof.
+  apply (k2_jac_accuracy_current par 10 1).
+  - right. rewrite Rabs_right; lra.
+  - intros t _ k Hk. apply par_ex_derive_n, Hk.
+  - intros t _. rewrite par_D2, Rabs_R1. apply Rle_refl.
+  - lra.
 Qed.
 
 (** * (4) Forward second difference for the mixed second derivative *)
